@@ -39,7 +39,7 @@ TRUSTED = [
 PARTIAL = (
     "Decided relative to models of redis-py and of the server (tracking included), neither validated against the real thing. Quiescent points "
     "only (delivery completed between commands): interleavings of a command with in-flight announcements are not explored. Not exhibited: "
-    "late expiry announcements of a real server, get_many with repeated keys, get on a key locked with a raw token, get_size, more than one SCAN page, the local copy's capacity, "
+    "late expiry announcements of a real server, get on a key locked with a raw token, get_size, more than one SCAN page, the local copy's capacity, "
     "server down (C19), more than 3 clients. get_expire's answer is compared with the model only (the code lets it differ from the server's). "
     "Outages: a connect attempt is refused or accepted as a whole (no failure between CLIENT TRACKING and SUBSCRIBE), one client in an outage at a "
     "time in the outage histories (the random histories drop several); the local copy is observed through reads only."
@@ -48,6 +48,8 @@ KNOWN_SIGS = {
     "D28": "D28:negative-int-not-read-back",
     "D26": "D26:rejected-conditional-write-readable",
     "D31": "D31:stale-after-reconnect-echo-mark",
+    "D63": "D63:get-many-default-equal-value-remembered-absent",
+    "D66": "D66:get-many-repeated-keys",
 }
 
 
@@ -67,6 +69,16 @@ def classify(steps, i) -> str | None:
         a, b = s["impl"].split("=", 1)[1].split(","), s["server"].split("=", 1)[1].split(",")
         if len(a) == len(b) and all(x == y or (x == "-" and y.startswith("i:-")) for x, y in zip(a, b)):
             return KNOWN_SIGS["D28"]
+    for j in range(i, -1, -1):
+        # an earlier get_many(default=d) of this client that fetched a stored value equal to d and filed it as "known absent"
+        o = steps[j]["op"]
+        if o[0] == "getmany" and len(o) > 3 and o[1] == c and set(o[2]) & set(keys):
+            dtok = {"i0": "i:0", "none": "o:80054e2e"}.get(o[3])
+            held = (s["server"] or "=").split("=", 1)[1].split(",")        # what the server holds where the read went wrong
+            if dtok in held:
+                return KNOWN_SIGS["D63"]
+        if o[0] in ("clear", "drop", "reconnect") and (o[0] == "clear" or o[1] == c):
+            break
     for j in range(i - 1, -1, -1):
         o = steps[j]["op"]
         if o[0] in ("set", "setlock") and o[1] == c and o[2] in keys and steps[j]["impl"] == "F":
@@ -94,7 +106,9 @@ def judge(steps) -> list[dict]:
     for i, s in enumerate(steps):
         impl, model, want = s["impl"], s["model"], s["server"]
         if impl.startswith("?") or impl == "RAISEOTHER":
-            out.append({"i": i, "kind": "property", "sig": None, "what": f"`{s['line']}` -> {impl} {s['detail']}"})
+            dup = s["op"][0] == "getmany" and len(set(s["op"][2])) < len(s["op"][2])
+            out.append({"i": i, "kind": "property", "sig": KNOWN_SIGS["D66"] if dup else None,
+                        "what": f"`{s['line']}` -> {impl} {s['detail']}" + (" (get_many with a key asked for twice: one answer per position)" if dup else "")})
             continue
         if want is not None and impl != want:
             sig = classify(steps, i)
@@ -191,6 +205,13 @@ def stats_of(steps, prefix=None) -> set[str]:
             if c not in dropped and c in watch and set(keys_read(op)) & watch[c] and op[0] != "getmatch":
                 st.add("read_after_reconnect_of_key_gone_stale_in_outage")
                 watch[c] -= set(keys_read(op))
+        if op[0] == "getmany" and len(op) > 3:
+            st.add("get_many_with_callers_default")
+            dt = "i:0" if op[3] == "i0" else None
+            if dt and dt in (s["server"] or "")[3:].split(","):
+                st.add("get_many_default_equals_stored_value")
+        if op[0] == "getmany" and len(set(op[2])) < len(op[2]):
+            st.add("get_many_repeated_key")
         if op[0] in ("getmatch", "scan") and (s["server"] or "")[3:]:
             st.add("pattern_read_nonempty")
         if op[0] == "getexpire" and s["impl"].startswith("n=") and int(s["impl"][2:]) > 0:
